@@ -37,9 +37,19 @@ func tagOf(ctx context.Context) string {
 }
 
 // InjErr is the sentinel of an injected tool failure.
-type InjErr struct{ What string }
+type InjErr struct {
+	What string
+	EOF  bool // the error wraps io.EOF (an error item all the same)
+}
 
 func (e *InjErr) Error() string { return "INJECTED<" + e.What + ">" }
+
+func (e *InjErr) Unwrap() error {
+	if e.EOF {
+		return io.EOF
+	}
+	return nil
+}
 
 type toolCallRec struct {
 	Tag, Name, Args, CallID string
@@ -218,7 +228,8 @@ func (b *baseTool) stream(ctx context.Context, args string) (*schema.StreamReade
 		for i, c := range chunks {
 			if mid && i == len(chunks)-1 {
 				e.faults["tool_error_item_mid_stream"]++
-				sw.Send("", &InjErr{What: b.spec.Name + "/" + args})
+				// (every other tool's error item wraps io.EOF)
+				sw.Send("", &InjErr{What: b.spec.Name + "/" + args, EOF: b.spec.Name[len(b.spec.Name)-1]%2 == 0})
 				return
 			}
 			if sw.Send(c, nil) {
